@@ -4,4 +4,4 @@ From Coq Require Import ZArith List ExtrOcamlBasic.
 Require Import ZV.Model.Json.
 Extraction "model.ml" Z.add Z.mul Z.opp Z.div_eucl Z.of_nat Z.to_nat Z.compare
   to_json json_quote json_parse tree_of of_tree unjson norm wf data no_reserved_keys sym_keys
-  pstr fix_str float_token str_eqb int_token.
+  pstr fix_str float_token str_eqb int_token run_ops.
